@@ -33,7 +33,8 @@ DIMS = [[[], ["--no-colors"]],
         [[], ["-f", "humanized"], ["-f", "json"]],
         [[], ["-o"]],
         [[], ["-d"], ["-dd"]],
-        [[], ["-R", "CheckForbiddenSourceHeader"], ["-R", "x"], ["-R", "CheckDefine"]]]
+        [[], ["-R", "x"], ["-R", "CheckDefine"], ["-R", "CheckDefines"], ["-R", "NoCheckDefine,x"]]]
+THOROUGH_R = [["-R", "CheckForbiddenSourceHeader"], ["-R", "checkdefine"], ["-R", "CheckForbiddenSourceHeader,CheckDefine"]]
 
 
 def plan(tier, seed):
@@ -87,7 +88,10 @@ def run_shard(spec):
     tmp = tempfile.mkdtemp(prefix="nv_c16_")
     try:
         files = []
-        for p, tag in pipework.base_programs({"seed": spec["seed"], "shard": 1200 + spec["shard"], "n": spec["n"]}):
+        from nv.gen import conf as _conf
+        progs = [_conf.make("c16/%s/%d/%d" % (spec["seed"], spec["shard"], k), "h" if (k + spec["shard"]) % 2 else "c")
+                 for k in range(spec["n"])]
+        for p in progs:
             files.append((p.name, p.text(), "conf"))
             for q, o, _ in pipework.sampled_variants(p, r, 1):
                 files.append((q.name, q.text(), "viol:" + o["id"]))
@@ -126,7 +130,7 @@ def run_shard(spec):
                     sh.count("c16.pairs_skipped_no_verdict")
                     continue
                 sh.count("c16.same_findings_under_every_option_set")
-                if "CheckDefine" in opts:
+                if "CheckDefine" in opts:         # the exact word only: every other -R value changes nothing
                     want_ev = sorted((e[0], e[1], e[2], e[3]) for e in ref[2] if e[4] != "CheckPreprocessorDefine")
                     sh.count("c16.R_CheckDefine_removes_only_define_diagnostics")
                     removed = [e for e in ref[2] if e[4] == "CheckPreprocessorDefine"]
@@ -157,6 +161,43 @@ def run_shard(spec):
                     except (oracle.ReportParseError, ValueError, IndexError, KeyError) as e:
                         detail["error"] = str(e)[:200]
                         sh.violation("unparsable_report", tuple(o for o in opts if o.startswith("-")), case, detail)
+            # the file analysed after a same-named sibling in one run, under a random option set: same findings
+            sib = None
+            if name.endswith(".h") and kind == "conf":
+                import re
+                m = re.search(r"^# define (\w+_H)$", src, re.M)
+                if m:
+                    sib = (src.replace("# define " + m.group(1) + "\n", "", 1), src)      # (define-less variant, correct twin)
+            elif kind.startswith("viol") or kind.startswith("define"):
+                sib = (src, files[k - 1][1] if k and files[k - 1][0] == name else None)
+            if sib and sib[1] is not None:
+                os.makedirs(os.path.join(d, "a"), exist_ok=True)
+                os.makedirs(os.path.join(d, "b"), exist_ok=True)
+                with open(os.path.join(d, "a", name), "w") as f:
+                    f.write(sib[1])
+                with open(os.path.join(d, "b", name), "w") as f:
+                    f.write(sib[0])
+                row = r.choice(pairwise(r))
+                opts = [o for o in argv_of(row) if True]
+                if "CheckDefine" in opts or "-d" in opts or "-dd" in opts:
+                    opts = ["--no-colors"]
+                alone = cliobs.run_cli(opts + [os.path.join("b", name)], cwd=d)
+                both = cliobs.run_cli(opts + [os.path.join("a", name), os.path.join("b", name)], cwd=d)
+                sh.case("sibling\0" + name + "\0" + sib[0])
+                sh.tally("runs", "after_same_name_sibling")
+                sh.count("c16.same_findings_after_a_sibling_in_the_same_run")
+
+                def last_obs(run):
+                    fs = [f for f in (run.trace or {}).get("files", []) if f["path"].endswith(os.path.join("b", name))]
+                    if not fs or fs[-1].get("state") != "done":
+                        return None
+                    return (fs[-1].get("status"), sorted((e[0], e[1], e[2], e[3]) for e in fs[-1].get("events") or []))
+                oa, ob = last_obs(alone), last_obs(both)
+                if oa is not None and ob is not None and oa != ob:
+                    sh.violation("run_with_sibling_changes_findings", tuple(o for o in opts if o.startswith("-")),
+                                 {"mode": "sibling", "name": name, "a": sib[1], "b": sib[0], "argv": opts},
+                                 {"only_alone": [e for e in oa[1] if e not in ob[1]][:4], "only_with_sibling": [e for e in ob[1] if e not in oa[1]][:4],
+                                  "status": [oa[0], ob[0]]})
             # inline content vs the same content on disk (also content that does not end in a newline)
             flag = "--cfile" if name.endswith(".c") else "--hfile"
             full_src = src
@@ -204,6 +245,22 @@ def run_shard(spec):
 def replay(case, sh):
     tmp = tempfile.mkdtemp(prefix="nv_c16r_")
     try:
+        if case["mode"] == "sibling":
+            name = case["name"]
+            for sub, txt in (("a", case["a"]), ("b", case["b"])):
+                os.makedirs(os.path.join(tmp, sub), exist_ok=True)
+                with open(os.path.join(tmp, sub, name), "w") as f:
+                    f.write(txt)
+            alone = cliobs.run_cli(case["argv"] + [os.path.join("b", name)], cwd=tmp)
+            both = cliobs.run_cli(case["argv"] + [os.path.join("a", name), os.path.join("b", name)], cwd=tmp)
+            sh.evaluations += 1
+
+            def lo(run):
+                fs = [f for f in (run.trace or {}).get("files", []) if f["path"].endswith(os.path.join("b", name))]
+                return (fs[-1].get("status"), sorted((e[0], e[1], e[2], e[3]) for e in fs[-1].get("events") or [])) if fs else None
+            if lo(alone) != lo(both):
+                sh.violation("run_with_sibling_changes_findings", ("replay",), case, {})
+            return
         name, src = case["name"], case["src"]
         with open(os.path.join(tmp, name), "w") as f:
             f.write(src)
